@@ -99,7 +99,7 @@ func c15CorpusCase(r *mon.Run, ci corpusItem) {
 		r.Count("corpus."+k, int64(cm.Tr.Stats[k]))
 	}
 	if r.Verbose {
-		fmt.Printf("%s: %d comments\n--- with comments ---\n%s\n", name, n, cout)
+		fmt.Printf("%s: %d comments\n--- with comments ---\n%s\n--- without comments ---\n%s\n", name, n, cout, pout)
 	}
 }
 
